@@ -2,11 +2,13 @@
 """writes /verif/MANIFEST.json from the table below + which props/cXX.py exist"""
 import json, os, re
 V = os.path.dirname(os.path.dirname(os.path.abspath(__file__)))
-TECH = 'symbolic execution of clang-14 LLVM IR of the real glm code (own executor) + SMT (z3 / cvc5) decision, native replay of counterexamples'
+TECH = 'solver-based checking of the real code: symbolic execution of the clang-14 LLVM IR of the real glm functions (own executor, regenerated from /repo each run) into SMT terms; z3 / cvc5 decide each obligation for all inputs within the stated bounds; counterexamples replayed natively'
 T = {
  'C05': ('proof', 'Every GLSL integer/bitfield function instance (8-64 bit, signed/unsigned, scalar and vec1-4) is executed symbolically from its clang IR with full-width free inputs and the solver shows the output equals a bit-level transcription of the GLSL 4.20 text for all inputs in the documented domain; counterexamples are replayed natively (g++ and clang).',
          'Trusted: clang-14 lowering, the IR executor/models (validated per run against native execution), z3/cvc5, the spec transcription. Known findings (usubBorrow, signed bitfieldExtract) are reported and the obligations re-proved outside their regions.', 'DESIGN.md section 3/C05'),
 }
+NA = {}
+SKIP = set(os.environ.get('VERIF_MANIFEST_SKIP', '').split(',')) - {''}
 import sys, importlib
 sys.path.insert(0, V); sys.path.insert(0, os.path.join(V, 'engine'))
 def main():
@@ -20,13 +22,13 @@ def main():
     props = [json.loads(l) for l in open(os.path.join(V, 'properties.jsonl'))]
     for p in props:
         pid = p['id']
-        if pid in T and os.path.exists(os.path.join(V, 'props', pid.lower() + '.py')):
+        if pid in T and pid not in SKIP and os.path.exists(os.path.join(V, 'props', pid.lower() + '.py')):
             lvl, text, note, ref = T[pid]
             checks.append(dict(property_id=pid, quick_cmd='./check %s --tier quick' % pid, thorough_cmd='./check %s --tier thorough' % pid,
                                evidence_file='evidence/%s.json' % pid, replay_cmd_template='./check %s --replay {path}' % pid, engine='irsym',
                                level_claimed=dict(category=lvl, text=text, design_ref=ref), level_note=note, technique=TECH))
         else:
-            na.append(dict(property_id=pid, reason='check not built yet in this round (work in progress; see DESIGN.md section 3 for the planned solver encoding)'))
+            na.append(dict(property_id=pid, reason=NA.get(pid, 'no check registered for this property yet (see DESIGN.md section 3 for the planned solver encoding)')))
     m = dict(version=1, setup_cmd='./setup.sh',
              hooks=dict(guard='GLM_VERIF_HOOKS', enable='none needed: the checks compile wrapper translation units against the unmodified headers in /repo', baseline_off_cmd='./tools/run_suite.sh', source_commits=[], add_only=True),
              engines=[dict(name='irsym', path='engine/', serves_properties=[c['property_id'] for c in checks], kind_free_text='LLVM-IR symbolic executor (Python) producing z3 terms; z3/cvc5 decide; native replay via ctypes / UBSan builds')],
